@@ -162,7 +162,7 @@ func genC16(cfg Config, emit Emit) error {
 		nw = 8000
 	}
 	genWorlds(cfg, nw, genOpts{maxDepth: 4, sessions: true, sessionPct: 15, caveats: true, caveatPct: 20,
-		kinds: []string{"case", "case", "nearmiss", "ability", "resource", "none", "didurl", "didurl", "urlnear", "urlnear"}}, func(w *AWorld, class string) {
+		kinds: []string{"case", "case", "nearmiss", "ability", "resource", "none", "didurl", "didurl", "urlnear", "urlnear", "ucanscoped"}}, func(w *AWorld, class string) {
 		emit("access", []string{"C16", mustJSON(w)}, "end-to-end/"+class, true)
 	})
 	genWorlds(cfg, nw/2, genOpts{maxDepth: 4, urlWorld: true, kinds: []string{"urlnear", "urlnear", "none"}}, func(w *AWorld, class string) {
